@@ -21,7 +21,7 @@ if [ "$MODE" = check ] || [ "$MODE" = both ]; then
   git -C /repo status --short | grep -q . && { echo "/repo not clean"; exit 3; }
   git -C /repo apply "$D/patch.diff" || { echo "cannot apply to /repo"; exit 2; }
   for p in $P; do
-    (cd /verif && timeout 3000 python3 tools/vcheck.py --property $p --tier ${TIER:-quick} 2>&1 | grep -E "VIOLATION|KNOWN|done:|Traceback|Error" | head -12)
+    (cd /verif && timeout 3000 python3 tools/vcheck.py --property $p --tier ${TIER:-quick} 2>&1 | grep -E "VIOLATION|done:|Traceback|Error" | head -12)
   done
   git -C /repo checkout -- . ; git -C /repo status --short
 fi
